@@ -14,6 +14,9 @@ import RTV.Gen.CharTables
   ip.sweep <ip|seq> <cps> <n> <a:b:tag>…     -> start:len:textcps:data;…   (sweep on given match spans)
   guid.extract <cps>                         -> start:len:textcps:data;…   (BaseGUIDExtractor.extract)
   guid.score <cps>                           -> integer score 0..100 (the code returns score/100)
+  re.findcap <name> <group number> <real|ascii> <cps>  -> a:b:cs:ce;…  (`-:-` when the group did not take part)
+  url.extract <cps>                          -> start:len:textcps:data;…  | err:Other   (BaseURLExtractor.extract)
+  spec.url <cps>                             -> typecps:start:end:textcps:valuecps;…   (recognize_url)
   spec.ip <en|zh> <cps>                      -> typecps:textcps:valuecps;…   (recognize_ip_address, runner fields)
   spec.guid <cps>                            -> typecps:textcps:valuecps:scorecps;…
   spec.bool <cps>                            -> typecps:textcps:0|1;…  | err:Other
@@ -83,6 +86,26 @@ def hGuidScore : Handler
   | [s] => toString (scoreGuid RTV.Gen.reTables RTV.Gen.guidElementRegex (parseCps s))
   | _ => "bad-op"
 
+def hReFindCap : Handler
+  | [n, g, w, s] => match lookupRe n with
+    | some r => ";".intercalate ((findAllCap (pickTables w) (parseCps s).toArray (parseNat g) r).map fun (a, b, c) =>
+        match c with
+        | some (x, y) => s!"{a}:{b}:{x}:{y}"
+        | none => s!"{a}:{b}:-:-")
+    | none => "err:KeyError"
+  | _ => "bad-op"
+
+def hUrlExtract : Handler
+  | [s] => match RTV.Url.urlExtract (urlEnvOf genSeqEnv) (parseCps s) with
+    | some ers => showERs ers
+    | none => "err:Other"
+  | _ => "bad-op"
+
+def hSpecUrl : Handler
+  | [s] => ";".intercalate ((urlModelRun genSeqEnv (parseCps s)).map fun (t, a, b, x, v) =>
+      s!"{showCps t}:{a}:{b}:{showCps x}:{showCps v}")
+  | _ => "bad-op"
+
 def hSpecIp : Handler
   | [w, s] => ";".intercalate ((ipModelRun genSeqEnv (w == "zh") (parseCps s)).map fun (t, x, v) =>
       s!"{showCps t}:{showCps x}:{showCps v}")
@@ -110,6 +133,9 @@ def dispatchRe (op : String) (args : List String) : Option String :=
   | "ip.sweep" => some (hIpSweep args)
   | "guid.extract" => some (hGuidExtract args)
   | "guid.score" => some (hGuidScore args)
+  | "re.findcap" => some (hReFindCap args)
+  | "url.extract" => some (hUrlExtract args)
+  | "spec.url" => some (hSpecUrl args)
   | "spec.ip" => some (hSpecIp args)
   | "spec.guid" => some (hSpecGuid args)
   | "spec.bool" => some (hSpecBool args)
